@@ -29,8 +29,16 @@ extern "C" {
 ///  * realloc ALWAYS moves (so every pointer into a grown array dangles, and reads poison),
 ///  * the size lives in a 16-byte header in front of the block.
 const HDR: usize = 16;
+/// guard bytes behind every block: a write past the end (even by one byte) is detected when the block is
+/// freed / reallocated (abort) or inspected (`blk_tail_ok`)
+const TAIL: usize = 8;
+const TAIL_BYTE: u8 = 0xC3;
+unsafe fn blk_tail_ok(p: *mut c_void) -> bool {
+    let n = *((p as *mut u8).sub(HDR) as *mut usize);
+    (0..TAIL).all(|i| *(p as *mut u8).add(n + i) == TAIL_BYTE)
+}
 unsafe fn blk_new(n: usize, fill: Option<u8>) -> *mut c_void {
-    let base = malloc(n + HDR);
+    let base = malloc(n + HDR + TAIL);
     if base.is_null() {
         return base;
     }
@@ -40,6 +48,7 @@ unsafe fn blk_new(n: usize, fill: Option<u8>) -> *mut c_void {
     if let Some(f) = fill {
         memset(p, f as i32, n);
     }
+    memset((p as *mut u8).add(n) as *mut c_void, TAIL_BYTE as i32, TAIL);
     p
 }
 unsafe fn blk_size(p: *mut c_void) -> usize {
@@ -47,6 +56,10 @@ unsafe fn blk_size(p: *mut c_void) -> usize {
     if *base.add(1) != 0x7573_6564 {
         // double free / free of a foreign pointer: memory-unsafe behaviour of the runtime
         eprintln!("c07: free/realloc of a block that is not live (double free or foreign pointer)");
+        std::process::abort();
+    }
+    if !blk_tail_ok(p) {
+        eprintln!("c07: heap overrun: the guard bytes behind a block of {} bytes were overwritten", *base);
         std::process::abort();
     }
     *base
@@ -1152,6 +1165,88 @@ fn inl_case(out: &mut impl Write, cunit: &str, cid: &str, seed: u64, n: usize) {
     }
 }
 
+/// `ts_node_string` (the two-pass measure-then-write of `ts_subtree__write_to_string`) on ERRONEOUS trees whose
+/// MISSING / anonymous token names need escaping (zoo/c07quote: `"`, `\`, `'`, newline; jsonish: `"`), called
+/// through the FFI so that the returned buffer can be inspected before it is freed: its allocated size must be
+/// exactly `strlen + 1` (what the measuring pass promised = what the writing pass wrote) and the guard bytes
+/// behind it intact.  For the root the tree is dumped too and the Lean port of the writer (C06 `nodeString`)
+/// must produce the same string.
+fn sexp_case(out: &mut impl Write, cid: &str, lang_id: &str, b: &zoo::Built, seed: u64, n: usize, langs_done: &mut Vec<String>) {
+    let mut rng = Rng::new(seed);
+    writeln!(out, "spec {cid} sexp {lang_id} {seed} {n}").unwrap();
+    if !langs_done.contains(&lang_id.to_string()) {
+        langs_done.push(lang_id.to_string());
+        // the language tables in the format of TsVerif.C02.Lang (cunit_c02 `lang <so> <symbol>`, as in C06's harness)
+        if let Ok(langdump) = std::env::var("C07_LANGDUMP") {
+            if let Ok(o) = Command::new(&langdump).arg("lang").arg(b.dir.join("lang.so")).arg(format!("tree_sitter_{}", b.name)).output() {
+                if o.status.success() {
+                    writeln!(out, "deflang {lang_id}").unwrap();
+                    out.write_all(&o.stdout).unwrap();
+                    writeln!(out, "enddeflang").unwrap();
+                }
+            }
+        }
+    }
+    let gg = gen::GrammarGen::new(&b.grammar_json, zoo::read_zoo_file(lang_id, "samples.json").as_deref());
+    let mut parser = Parser::new();
+    parser.set_language(&b.language).unwrap();
+    for k in 0..n {
+        let budget = [3, 8, 20][rng.below(3)];
+        let toks = gg.sentence(&mut rng, budget);
+        let mut text = gg.render(&toks, &mut rng).0;
+        // damage: truncate (closing delimiters go missing), drop or duplicate a byte
+        match rng.below(5) {
+            0 | 1 if text.len() > 1 => text.truncate(1 + rng.below(text.len() - 1)),
+            2 if !text.is_empty() => {
+                let i = rng.below(text.len());
+                text.remove(i);
+            }
+            3 if !text.is_empty() => {
+                let i = rng.below(text.len());
+                let c = text[i];
+                text.insert(i, c);
+            }
+            _ => {}
+        }
+        let Some(tree) = guarded_parse(&mut parser, &text, None, None) else { continue };
+        // every node of the tree (bounded), the root first
+        let mut nodes = vec![tree.root_node()];
+        let mut i = 0;
+        while i < nodes.len() && nodes.len() < 60 {
+            let nd = nodes[i];
+            let mut c = nd.walk();
+            for ch in nd.children(&mut c) {
+                nodes.push(ch);
+            }
+            i += 1;
+        }
+        for (j, nd) in nodes.iter().enumerate() {
+            unsafe {
+                let p = tree_sitter::ffi::ts_node_string(nd.into_raw());
+                if p.is_null() {
+                    continue;
+                }
+                let len = std::ffi::CStr::from_ptr(p).to_bytes().len();
+                let alloc = *((p as *mut u8).sub(HDR) as *mut usize);
+                let tail_ok = blk_tail_ok(p as *mut c_void);
+                let bytes: Vec<u8> = std::slice::from_raw_parts(p as *const u8, len.min(alloc + TAIL)).to_vec();
+                if !tail_ok {
+                    // repair so that the free below does not abort: the overrun is reported through the judge
+                    memset((p as *mut u8).add(alloc) as *mut c_void, TAIL_BYTE as i32, TAIL);
+                }
+                c_free(p as *mut c_void);
+                if j == 0 {
+                    writeln!(out, "sexproot {cid}.{k} lang={lang_id} len={len} alloc={alloc} tail={} missing={} str={}", tail_ok as u8, tree.root_node().has_error() as u8, hex(&bytes)).unwrap();
+                    write!(out, "{}", dump_tree(&tree)).unwrap();
+                    writeln!(out, "endsexp").unwrap();
+                } else if len + 1 != alloc || !tail_ok {
+                    writeln!(out, "sexpnode {cid}.{k}.{j} lang={lang_id} len={len} alloc={alloc} tail={} str={}", tail_ok as u8, hex(&bytes)).unwrap();
+                }
+            }
+        }
+    }
+}
+
 /// `ts_range_array_get_changed_ranges` on explicit range lists (numbers: n_old s e … n_new s e …).
 fn crx_case(out: &mut impl Write, cunit: &str, cid: &str, nums: &[&str]) {
     let q = nums.join(" ");
@@ -1304,6 +1399,11 @@ fn main() {
             specs.push(format!("ess {} {}", rng.next() % 1_000_000_007, 60));
         }
         specs.push("bits".to_string());
+        for lang in ["c07quote", "jsonish", "c07quote", "stmt", "c08role"] {
+            for _ in 0..(if thorough { 10 } else { 2 }) {
+                specs.push(format!("sexp {lang} {} {}", rng.next() % 1_000_000_007, 40));
+            }
+        }
         for _ in 0..(if thorough { 12 } else { 2 }) {
             specs.push(format!("cr {} {}", rng.next() % 1_000_000_007, 150));
             specs.push(format!("lx {} {}", rng.next() % 1_000_000_007, 150));
@@ -1311,9 +1411,10 @@ fn main() {
     }
     let mut langs_cache: std::collections::HashMap<String, Option<zoo::Built>> = std::collections::HashMap::new();
     let mut nhist = 0;
+    let mut sexp_langs: Vec<String> = Vec::new();
     for (i, line) in specs.iter().enumerate() {
         let f: Vec<&str> = line.split_whitespace().collect();
-        let f: Vec<&str> = if f.len() >= 2 && ["hist", "arr", "inl", "pw", "cl", "ess", "al", "bits", "cr", "crx", "lx", "lxx"].contains(&f[1]) { f[1..].to_vec() } else { f };
+        let f: Vec<&str> = if f.len() >= 2 && ["hist", "arr", "inl", "pw", "cl", "ess", "al", "bits", "cr", "crx", "lx", "lxx", "sexp"].contains(&f[1]) { f[1..].to_vec() } else { f };
         match f.as_slice() {
             ["hist", kind, lang, seed] => {
                 let b = langs_cache.entry(lang.to_string()).or_insert_with(|| zoo::load(lang).ok());
@@ -1349,6 +1450,12 @@ fn main() {
             ["pw", seed, n] => pw_case(&mut out, &cunit, &format!("p{i}"), seed.parse().unwrap(), n.parse().unwrap()),
             ["cl", seed, n] => cl_case(&mut out, &cunit, &format!("c{i}"), seed.parse().unwrap(), n.parse().unwrap()),
             ["ess", seed, n] => ess_case(&mut out, &cunit, &format!("e{i}"), seed.parse().unwrap(), n.parse().unwrap()),
+            ["sexp", lang, seed, n] => {
+                let b = langs_cache.entry(lang.to_string()).or_insert_with(|| zoo::load(lang).ok());
+                if let Some(b) = b.as_ref() {
+                    sexp_case(&mut out, &format!("s{i}"), lang, b, seed.parse().unwrap(), n.parse().unwrap(), &mut sexp_langs);
+                }
+            }
             ["cr", seed, n] => cr_case(&mut out, &cunit, &format!("r{i}"), seed.parse().unwrap(), n.parse().unwrap()),
             ["lx", seed, n] => lx_case(&mut out, &cunit, &format!("x{i}"), seed.parse().unwrap(), n.parse().unwrap()),
             ["crx", rest @ ..] => crx_case(&mut out, &cunit, &format!("r{i}"), rest),
